@@ -391,19 +391,40 @@ def wrap_pages(prog, floor=8):
                 continue
             a, b = kids(n)
             ma = strip(a, casts=True)
+            if ma['k'] == 'DeclRefExpr' and ma.get('dk') == 'local' and ma.get('d') is not None:
+                # a local copy of the page start
+                from rules.pagebase import _defs
+                ds_ = _defs(fn, ma['d'])
+                if len(ds_) == 1:
+                    ma = strip(ds_[0], casts=True)
             if ma['k'] == 'MemberExpr' and ma['n'] == 'address' and ma.get('rec') == 'MemoryPage' and \
                     (const(b) or 0) >= 4096:
                 p = fn.parent.get(n['i'])
                 while p is not None and p['k'] in ('ParenExpr', 'ImplicitCastExpr'):
                     p = fn.parent.get(p['i'])
-                if p is None or p['k'] != 'BinaryOperator' or p.get('op') not in ('<', '<=', '>', '>='):
-                    continue
+                direct = p is not None and p['k'] == 'BinaryOperator' and p.get('op') in ('<', '<=', '>', '>=')
+                if not direct:
+                    # the page end kept in a variable first (`const uint32_t page_end = page->address + PAGE_SIZE`): the sum
+                    # and the variable must both be wider than 32 bits
+                    q_ = fn.parent.get(n['i'])
+                    narrow = False
+                    while q_ is not None and q_['k'] in ('ParenExpr', 'ImplicitCastExpr', 'CStyleCastExpr'):
+                        wq = type_width(fn.type(q_))
+                        if wq is not None and wq <= 32:
+                            narrow = True
+                        q_ = fn.parent.get(q_['i'])
+                    if q_ is None or q_['k'] not in ('DeclStmt', 'BinaryOperator', 'VarDecl') or \
+                            (q_['k'] == 'BinaryOperator' and q_.get('op') != '='):
+                        continue
+                    p = q_
                 k += 1
                 w = type_width(fn.type(n))
                 ok = w is not None and w > 32
+                if not direct and narrow:
+                    ok = False
                 obs.append(Ob('R-WRAP', fn.file, n['l'], fn.q, 'page-test#%d' % k, DISCHARGED if ok else VIOLATED,
                               '' if ok else '`%s` is computed in a %s-bit type: for the page at 0xffff0000 the sum wraps to 0, the '
-                              'page never matches, and write paths append a new page on every access' % (show(p)[:70], w),
+                              'page never matches, and write paths append a new page on every access' % (show(p if direct else n)[:70], w),
                               'page end computed in %s bits' % w, False))
     return RuleResult('R-WRAP', obs, floor, {})
 
